@@ -108,6 +108,21 @@ theorem connectionLost_fields (a : App) :
     rw [delivered_emit, h1]; simp [Ev.payload, App.delivered]
   · exact ⟨h1, h2, h3, h4⟩
 
+theorem finishAttach_spec (a : App) (ex : Option Nat) (fc : Bool) (s rest : List Act) (ag : List Frame) :
+    (finishAttach a ex fc s rest).1.surfaced = a.surfaced ∧
+    DrainInv (finishAttach a ex fc s rest).1 ((finishAttach a ex fc s rest).2 ++ ag) := by
+  simp only [finishAttach]
+  split
+  · refine ⟨?_, fun _ _ => by simp⟩
+    obtain ⟨w1, w2, _⟩ := writeToConsumer_spec
+      { a with consumer := some { cid := a.nextCid, written := 0, expected := ex, cb := none },
+               nextCid := a.nextCid + 1, fcConsumer := fc }
+      { cid := a.nextCid, written := 0, expected := ex, cb := none } [] true
+    rw [App.surfaced, App.surfaced, w1, w2]
+    simp [App.delivered]
+  · refine ⟨?_, fun _ _ => by simp⟩
+    simp [App.surfaced, App.delivered]
+
 theorem attachConsumer_spec (a : App) (ex : Option Nat) (fc : Bool) (s rest : List Act) (ag : List Frame)
     (hJ : DrainInv a (Frame.script (Act.consume ex s :: rest) :: ag) ∨
           DrainInv a (Frame.script (Act.consumeFC ex s :: rest) :: ag)) :
@@ -121,17 +136,9 @@ theorem attachConsumer_spec (a : App) (ex : Option Nat) (fc : Bool) (s rest : Li
   simp only [attachConsumer]
   split
   · exact ⟨by simp [App.surfaced, App.delivered, App.emit, List.filterMap_append, Ev.payload], hJ'⟩
-  · split
-    · refine ⟨?_, fun _ _ => by simp⟩
-      obtain ⟨w1, w2, _⟩ := writeToConsumer_spec
-        { a with consumer := some { cid := a.nextCid, written := 0, expected := ex, cb := none },
-                 nextCid := a.nextCid + 1, fcConsumer := fc, log := a.log ++ [.reg] }
-        { cid := a.nextCid, written := 0, expected := ex, cb := none } [] true
-      simp only
-      rw [App.surfaced, App.surfaced, w1, w2]
-      simp [App.delivered, List.filterMap_append, Ev.payload]
-    · refine ⟨?_, fun _ _ => by simp⟩
-      simp [App.surfaced, App.delivered, List.filterMap_append, Ev.payload]
+  · obtain ⟨f1, f2⟩ := finishAttach_spec { a with log := a.log ++ [.reg] } ex fc s rest ag
+    refine ⟨f1.trans ?_, f2⟩
+    simp [App.surfaced, App.delivered, List.filterMap_append, Ev.payload]
 
 /-- what one step of the call stack does to the three things the order of delivery depends on -/
 theorem appStep_spec (a : App) (fr : Frame) (ag : List Frame) (hJ : DrainInv a (fr :: ag)) :
@@ -356,29 +363,37 @@ theorem attachFirst_weight (id : Nat) (s : List Act) : ∀ ws : List Reader,
 theorem szList_cons (x : Act) (xs : List Act) : szList (x :: xs) = x.sz + szList xs := by
   simp [szList]
 
+theorem finishAttach_decreases (a : App) (ex : Option Nat) (fc : Bool) (s rest : List Act) (ag : List Frame)
+    (hnone : a.consumer = none) :
+    potential (finishAttach a ex fc s rest).1 ((finishAttach a ex fc s rest).2 ++ ag) + 1 <
+      potential a ag + (1 + (5 + szList s + szList rest)) + 1 := by
+  simp only [potential_eq, agendaWeight_append]
+  simp only [finishAttach]
+  split
+  · obtain ⟨_, w2, w3⟩ := writeToConsumer_spec
+      { a with consumer := some { cid := a.nextCid, written := 0, expected := ex, cb := none },
+               nextCid := a.nextCid + 1, fcConsumer := fc }
+      { cid := a.nextCid, written := 0, expected := ex, cb := none } [] true
+    have w5 := writeToConsumer_weight
+      { a with consumer := some { cid := a.nextCid, written := 0, expected := ex, cb := none },
+               nextCid := a.nextCid + 1, fcConsumer := fc }
+      { cid := a.nextCid, written := 0, expected := ex, cb := none } [] true
+    simp only at w2 w3 w5 ⊢
+    rw [w2, w3, hnone, agendaWeight_append]
+    simp [agendaWeight, Frame.weight, consumerWeight, szOpt] at w5 ⊢
+    omega
+  · simp [hnone, agendaWeight, Frame.weight, consumerWeight, szOpt]
+    omega
+
 theorem attachConsumer_decreases (a : App) (ex : Option Nat) (fc : Bool) (s rest : List Act) (ag : List Frame) :
     potential (attachConsumer a ex fc s rest).1 ((attachConsumer a ex fc s rest).2 ++ ag) + 1 <
       potential a ag + (1 + (5 + szList s + szList rest)) + 1 := by
-  simp only [potential_eq, agendaWeight_append]
   simp only [attachConsumer]
   split
-  · simp [App.emit, agendaWeight]; omega
+  · simp [potential_eq, App.emit, agendaWeight]; omega
   · rename_i hnone
-    split
-    · obtain ⟨_, w2, w3⟩ := writeToConsumer_spec
-        { a with consumer := some { cid := a.nextCid, written := 0, expected := ex, cb := none },
-                 nextCid := a.nextCid + 1, fcConsumer := fc, log := a.log ++ [.reg] }
-        { cid := a.nextCid, written := 0, expected := ex, cb := none } [] true
-      have w5 := writeToConsumer_weight
-        { a with consumer := some { cid := a.nextCid, written := 0, expected := ex, cb := none },
-                 nextCid := a.nextCid + 1, fcConsumer := fc, log := a.log ++ [.reg] }
-        { cid := a.nextCid, written := 0, expected := ex, cb := none } [] true
-      simp only at w2 w3 w5 ⊢
-      rw [w2, w3, hnone, agendaWeight_append]
-      simp [agendaWeight, Frame.weight, consumerWeight, szOpt] at w5 ⊢
-      omega
-    · simp [hnone, agendaWeight, Frame.weight, consumerWeight, szOpt]
-      omega
+    have := finishAttach_decreases { a with log := a.log ++ [.reg] } ex fc s rest ag hnone
+    simpa [potential_eq] using this
 
 /-- every step of the call stack makes `potential` smaller -/
 theorem appStep_decreases (a : App) (fr : Frame) (ag : List Frame) :
